@@ -43,6 +43,9 @@ CLAIMED = {
     "C14": dict(
         text="Partial proof. Proved on the transcribed PST->AST conversion: comments between declarations, between struct fields and between interface members (no documentation pending) do not change the AST; documentation reaches only the immediately following member and only a method keeps it; an ordinary comment between documentation and method discards it (witness, known finding). The text->pair-tree step (pest), --marking and --no-typed-objects are decided by metamorphic runs: whitespace/line-break re-renderings, comments at declaration level and between tokens, documentation changed/removed, marking texts, typed vs untyped, each against the plain rendering over six backend outputs; the dumped pair trees of the variants go through the model as well.",
         ref="7 (C14)", technique="Coq proofs of comment/doc invariance on the PST->AST model + metamorphic runs of the real binary"),
+    "C20": dict(
+        text="Theorems for any number of client threads and every interleaving (sequentially consistent) of clone, drop, transfer, call, lock acquisition and return on one generated object: an inductive invariant (refs = number of live handles, lock owner = the thread in a body, freed implies no handle) and from it mutual exclusion of method bodies, every body sees the effects of all completed invocations with no lost update, the implementation is dropped at most once, only after the last release, never while a call is pending or running, and exactly once when all handles are gone. The step relation is instantiated with facts regenerated every run from wrapper.rs (fetch_add/fetch_sub as the only operations on refs, free on previous value 1, Mutex around the implementation) and from the Rust skeleton emitter (lock before the call, call inside the guard's closure). Tie: the same structure is checked on every generated skeleton arm of the run, and stress runs of a generated object (2-16 threads) check overlap, stale reads, lost updates and drop accounting. Partial: weak-memory behaviour of Relaxed/SeqCst is outside the model.",
+        ref="7 (C20)", technique="Coq proof of an inductive invariant over a thread-indexed step relation instantiated with regenerated ConcFacts + structural check of generated arms + stress runs"),
 }
 NOTE = ("Trusted: Coq 8.16.1 kernel (vm_compute used; no native_compute), no axioms; lib/translate.py; the harness crate; "
         "python driver and scrapers. Modelled rather than verified: all of /repo (theorems are about coq/theories; the tie is "
